@@ -27,9 +27,10 @@ class C06(PropBase):
 
     def gen(self, rng, tier, n, shard, nshards):
         cases = []
-        per = max(1, n // len(self.subs))
+        weights = {"id": 1, "idc": 1, "trso": 4, "idstar": 1, "idcstar": 1}   # TRSO has the richest vocabulary clause
+        unit = max(1, n // sum(weights.values()))
         for name, sub in self.subs:
-            for c in sub.gen(random.Random(rng.random()), tier, per, 1, 2):
+            for c in sub.gen(random.Random(rng.random()), tier, unit * weights[name], 1, 2):
                 cases.append({"alg": name, "case": c})
         return cases
 
